@@ -276,7 +276,7 @@ class Exec:
                 return Num("bool", z3.BoolVal(e[2] == "true"))
             if e[1] == "int":
                 return Num("int", z3.IntVal(int(e[2])))
-            return Num(e[1], z3.RealVal(e[2]))
+            return Num(e[1], z3.RealVal(str(__import__("fractions").Fraction(e[2].rstrip("fFlL")))))   # exact decimal value of the literal text
         if k == "str":
             return StrV(cpp_unescape(e[1]))
         if k == "paren":
